@@ -76,6 +76,7 @@ constexpr int kMaxCounters = 16;
 struct ViolRec {
   char family[48];
   uint64_t idx;
+  uint64_t chunk_begin;  // first case the reporting worker ran in this chunk (for sequence replay)
   char kind[48];
   char cls[64];        // classification tag used to match known findings
   char detail[1024];   // human readable
@@ -132,6 +133,7 @@ struct Ctx {
   bool quiet = false;  // replaying an already-checked prefix: drop violations without allocating
   int worker = -1;
   uint64_t report_id = 0;  // if non-zero, violations are recorded under this id instead of idx
+  uint64_t chunk_begin = 0;
   // publish an engine-defined replay id for crash attribution (history explorers)
   void publish(uint64_t id) {
     report_id = id;
@@ -195,6 +197,7 @@ struct Ctx {
     ViolRec& v = sh->viol[k];
     snprintf(v.family, sizeof v.family, "%s", fam->name.c_str());
     v.idx = report_id ? report_id : idx;
+    v.chunk_begin = report_id ? v.idx : chunk_begin;
     snprintf(v.kind, sizeof v.kind, "%s", kind);
     snprintf(v.cls, sizeof v.cls, "%s", cls.c_str());
     snprintf(v.detail, sizeof v.detail, "%s", buf);
@@ -225,6 +228,7 @@ struct Args {
   bool replay = false;
   std::string replay_family;
   uint64_t replay_idx = 0;
+  uint64_t replay_from = UINT64_MAX;  // sequence replay: run cases replay_from..replay_idx in one process
   std::vector<std::string> extra;
   std::string get(const std::string& key, const std::string& def = "") const {
     for (size_t i = 0; i + 1 < extra.size(); i += 2)
@@ -247,6 +251,8 @@ static inline Args parse_args(int argc, char** argv) {
       a.replay = true;
       a.replay_family = nxt();
       a.replay_idx = strtoull(nxt().c_str(), nullptr, 10);
+    } else if (s == "--replay-from") {
+      a.replay_from = strtoull(nxt().c_str(), nullptr, 10);
     } else if (s.rfind("--", 0) == 0) {
       a.extra.push_back(s.substr(2));
       a.extra.push_back(nxt());
@@ -278,8 +284,20 @@ class Runner {
       if (f.name != args_.replay_family) continue;
       Ctx ctx;
       ctx.fam = &f;
-      ctx.idx = args_.replay_idx;
       ctx.replay = true;
+      // sequence replay: the cases that preceded the failing one in its chunk run first, in this
+      // same process (for defects that carry state from one call to the next); their own reports
+      // are dropped
+      if (args_.replay_from != UINT64_MAX && args_.replay_from < args_.replay_idx) {
+        ctx.quiet = true;
+        for (uint64_t i = args_.replay_from; i < args_.replay_idx; i++) {
+          ctx.idx = i;
+          check(f, i, ctx);
+        }
+        ctx.quiet = false;
+        printf("REPLAY-SEQUENCE cases %llu..%llu ran first in this process\n", (unsigned long long)args_.replay_from, (unsigned long long)args_.replay_idx - 1);
+      }
+      ctx.idx = args_.replay_idx;
       ctx.want_sample = true;
       check(f, args_.replay_idx, ctx);
       if (!ctx.replay_report.empty()) {
@@ -402,7 +420,7 @@ class Runner {
     o += "\"violations\": [\n";
     for (int i = 0; i < nv; i++) {
       auto& v = sh_->viol[i];
-      o += " {\"family\": " + jstr(v.family) + ", \"idx\": " + std::to_string(v.idx) + ", \"kind\": " + jstr(v.kind) +
+      o += " {\"family\": " + jstr(v.family) + ", \"idx\": " + std::to_string(v.idx) + ", \"chunk_begin\": " + std::to_string(v.chunk_begin) + ", \"kind\": " + jstr(v.kind) +
            ", \"class\": " + jstr(v.cls) + ", \"detail\": " + jstr(v.detail) + ", \"input_hex\": " + jstr(v.input_hex) + "}";
       o += (i + 1 < nv) ? ",\n" : "\n";
     }
@@ -483,6 +501,7 @@ class Runner {
     };
     auto do_range = [&](uint64_t b, uint64_t e) {
       slot.chunk_end = e;
+      ctx.chunk_begin = b;
       for (uint64_t i = b; i < e; i++) {
         slot.idx = i;
         slot.alt_id = 0;
